@@ -13,6 +13,7 @@ import (
 	"strconv"
 	"strings"
 	"sync"
+	"sync/atomic"
 	"time"
 
 	"github.com/scrapli/scrapligo/channel"
@@ -413,7 +414,7 @@ func c06exec(s c06scen, kind string, k int) (o c06obs) {
 		}
 		arm()
 		o.Op = c06call(e.lossy, e.op)
-		if !o.Op.Hang {
+		if !o.Op.Hang && !(kind != "" && o.Op.Ident == "timeout") {
 			for _, f := range e.later {
 				r := c06call(e.lossy, f)
 				o.Later = append(o.Later, r)
@@ -667,11 +668,33 @@ type c06out struct {
 	died string // "" | "exit:<status> <stderr tail>" | "watchdog"
 }
 
+// c06bad counts cases whose outcome already shows a violation (a waited-out timeout, a hang, a
+// later success); past c06badMax the remaining sweeps are cut short: on a broken tree every further
+// case would wait out 2 s timeouts and add nothing.
+var c06bad atomic.Int32
+
+const c06badMax = 30
+
+func c06looksBad(o c06obs) bool {
+	if o.Op.Hang || o.Op.Ident == "timeout" || o.Op.SinceLoss > c06Prompt.Microseconds() {
+		return true
+	}
+	for _, l := range o.Later {
+		if l.Hang || l.Ident == "timeout" || l.Ident == "nil" || l.SinceLoss > c06Prompt.Microseconds() {
+			return true
+		}
+	}
+	return false
+}
+
 // c06spawn runs a job in child processes until every k has an outcome.
 func c06spawn(c *ctx, j c06job) map[int]c06out {
 	res := map[int]c06out{}
 	todo := append([]int{}, j.ks...)
 	for len(todo) > 0 {
+		if c06bad.Load() > c06badMax {
+			break
+		}
 		cmd := exec.Command(os.Args[0], "C06", "-tier", c.tier, "-seed", strconv.FormatUint(c.seed, 10), "-replay", j.line(todo))
 		var stderr bytes.Buffer
 		cmd.Stderr = &stderr
@@ -709,6 +732,18 @@ func c06spawn(c *ctx, j c06job) map[int]c06out {
 				if json.Unmarshal([]byte(f[2]), &o) == nil {
 					res[k] = c06out{obs: o}
 					done++
+					if c06looksBad(o) {
+						c06bad.Add(1)
+					}
+					if c06bad.Load() > c06badMax {
+						_ = cmd.Process.Kill()
+						go func() {
+							for range lines {
+							}
+						}()
+						_ = cmd.Wait()
+						return res
+					}
 				}
 			case <-time.After(4*c06Watch + 5*time.Second):
 				watchdog = true
@@ -984,6 +1019,10 @@ func c06judge(c *ctx, sw *c06sweep, out map[int]c06out, answer string) {
 		dom := m[0] == "1"
 		modelSet := strings.Split(m[1], "|")
 		o, ok := out[k]
+		if !ok && c06bad.Load() > c06badMax {
+			res.Count("skipped after too many failures")
+			continue
+		}
 		res.Count("scenario:" + s.Name)
 		res.Count("kind:" + kind)
 		res.Count(fmt.Sprintf("seg:%d", s.Seg))
@@ -1061,7 +1100,7 @@ func c06judge(c *ctx, sw *c06sweep, out map[int]c06out, answer string) {
 		lossHit := o.obs.LossReported || op.Ident != "nil"
 		bad := false
 		if !s.atOpen() || op.Ident == "nil" {
-			if len(o.obs.Later) == 0 {
+			if len(o.obs.Later) == 0 && op.Ident != "timeout" {
 				res.Fail("machinery", caseLine, "no later operation was run", "child")
 				continue
 			}
